@@ -171,6 +171,10 @@ epochLoop:
 				continue epochLoop
 			}
 			debugln("sigIndexes:", locations, "newNext:", newNext)
+			// a list is always appended after the list it links to: anything else is a corrupt log (and could loop forever)
+			if !newNext.IsZero() && newNext.Offset >= next.Offset {
+				return nil, fmt.Errorf("corrupt linked log: record at %d links forward to %d", next.Offset, newNext.Offset)
+			}
 			next = &newNext
 			for locIndex, txLoc := range locations {
 				tx, err := fetcher(epochNum, txLoc)
@@ -276,6 +280,10 @@ epochLoop:
 				continue epochLoop
 			}
 			debugln("sigIndexes:", locations, "newNext:", newNext)
+			// a list is always appended after the list it links to: anything else is a corrupt log (and could loop forever)
+			if !newNext.IsZero() && newNext.Offset >= next.Offset {
+				return nil, fmt.Errorf("corrupt linked log: record at %d links forward to %d", next.Offset, newNext.Offset)
+			}
 			next = &newNext
 			for locIndex, txLoc := range locations {
 				tx, err := fetcher(epochNum, txLoc)
